@@ -603,7 +603,8 @@ func (w *Where) optWhereLookup(mode Mode, req Require) (Cost, Cost, any) {
 	}
 	best := newBest[[]string]()
 	for idxi, idx := range w.tbl.indexes {
-		if indexCovered(idx, req.cols, w.fixed) {
+		if indexCovered(idx, req.cols, w.fixed) &&
+			!w.emptyFixedUnique(idxi, idx) {
 			varcost := Cost(req.nseeks) * w.tbl.lookupCostI(idxi)
 			best.update(0, varcost, idx)
 		}
@@ -612,6 +613,22 @@ func (w *Where) optWhereLookup(mode Mode, req Require) (Cost, Cost, any) {
 		return impossible, impossible, nil
 	}
 	return 0, best.varcost, &whereApproach{index: best.data, cost: best.varcost, mode: mode}
+}
+
+// emptyFixedUnique returns true for a unique index
+// where all the columns are fixed to the empty string.
+// This does not identify a single row
+// because a unique index allows multiple empty values.
+func (w *Where) emptyFixedUnique(idxi int, idx []string) bool {
+	if w.tbl.schema.Indexes[idxi].Mode != 'u' {
+		return false
+	}
+	for _, col := range idx {
+		if !w.fixed.Single(col) || w.fixed.Get(col)[0] != "" {
+			return false
+		}
+	}
+	return true
 }
 
 // exprFalse checks if any expressions folded to false
@@ -936,12 +953,24 @@ func (w *Where) Lookup(th *Thread, sels Sels) Row {
 			cloned = true // because they're clipped, append will realloc
 		}
 	}
-	isels, _ := Split(cloned, sels, w.srcIndex)
+	isels, _ := Split(cloned, sels, w.lookupCols())
 	row := lookup(w.source, isels, th, w.rowCtx.Tran)
 	if !w.filter(th, row) {
 		row = nil
 	}
 	return row
+}
+
+// lookupCols returns the columns to pass to the source Lookup.
+// Normally this is the source index, but an empty value in a unique index
+// is looked up with the key that is appended to it (see Table.Lookup).
+func (w *Where) lookupCols() []string {
+	if w.tbl != nil && !w.tbl.singleton {
+		if ix := &w.tbl.schema.Indexes[w.tbl.iIndex]; ix.Mode == 'u' {
+			return set.Union(w.srcIndex, ix.BestKey)
+		}
+	}
+	return w.srcIndex
 }
 
 // Split partitions sels relative to cols, returning sub-slices.
